@@ -154,6 +154,9 @@ def renderLog (l : Log) : String :=
   "ok:ev=" ++ dash (l.obs.map obsStr) ">" ++ "|rx=" ++ dash (l.rx.map wireStr) "," ++ "|sr=" ++ dash (l.sends.map sendStr) "," ++
   "|st=" ++ b01 l.connected ++ "," ++ toString l.minfee ++ "," ++ b01 l.sendheaders ++ "," ++ b01 l.sendcmpct ++
   "|late=" ++ b01 (l.obs.contains .connected) ++ "," ++ b01 (l.obs.contains .disconnected) ++ ",0" ++
+  -- a send attempted from inside the disconnected-event callback: the flag is cleared before the event is published
+  -- (`C12_conc_event_implies_flag_cleared`), so it is refused at once (`C12_conc_send_after_disconnect_is_error`)
+  "|cb=" ++ (if l.obs.contains .disconnected then "err:IllegalState" else "-") ++
   "|after=" ++ (if l.connected then "ok" else "err:IllegalState") ++ "|panics=0"
 
 /-! ### Racing calls: every linearisation point of the script gives the same summary -/
